@@ -98,6 +98,9 @@ type DetachableObject interface {
 // Number is the representation of numbers
 type Number struct {
 	Value float64
+	// text is the numeral the number was read from. A float64 holds about 17 significant digits, DynamoDB
+	// numbers have up to 38: a number that is only stored or copied keeps its text, see ToDynamoDB
+	text string
 }
 
 // Inspect returns the readable value of the object
@@ -112,6 +115,13 @@ func (i *Number) Type() ObjectType {
 
 // ToDynamoDB returns the types attribute value
 func (i *Number) ToDynamoDB() types.Item {
+	if i.text != "" {
+		// still the value that was read: return it digit for digit
+		if v, err := strconv.ParseFloat(i.text, 64); err == nil && v == i.Value {
+			return types.Item{N: types.ToString(i.text)}
+		}
+	}
+
 	str := numToString(i.Value)
 
 	return types.Item{N: types.ToString(str)}
@@ -129,6 +139,7 @@ func (i *Number) Add(obj Object) Object {
 	}
 
 	i.Value += n.Value
+	i.text = ""
 
 	return UNDEFINED
 }
